@@ -15,6 +15,22 @@ CHECKS = {
         "Trusts TLC, the transcription of PS3.8 in models/PS38.tla (DESIGN.md A.3) and the recording doubles under the real AssociationSocket/Timer.",
         "3/C04",
     ),
+    "C05": (
+        "model_checking",
+        "sim",
+        "explicit-state BFS over event histories at quiescent states of the real code (canonical-state de-duplication) plus deviation-bounded exhaustive schedule exploration",
+        "The real provider/association/ACSE code runs as coroutines under a controlled scheduler with virtual time and simulated sockets.  Layer A enumerates every history (peer PDUs of 17 kinds, close, reset, timer expiry, local user calls) up to the reported depth with canonical-state merging and closes each with a silent peer; layer B enumerates every schedule of the two-AE life-cycle scenarios with at most D deviations from the default scheduler.  Monitors: no undefined event / uncaught exception in any thread, provider back in Sta1, thread finished, transport closed.",
+        "Thread switches only at OS-service calls and watched shared flags (CPython bytecode atomicity assumed); socket/queue/event doubles validated against the OS by the fidelity self-test; bounds as reported in evidence.",
+        "3/C05",
+    ),
+    "C06": (
+        "model_checking",
+        "sim",
+        "deviation-bounded exhaustive exploration of thread schedules of two real AEs under a controlled scheduler",
+        "Two real application entities (requestor + acceptor server) with all pairs of user scripts (release, abort, echo, idle, release/abort from handlers and from a second thread): every schedule with at most D deviations from the deterministic default scheduler is executed to completion on the real code; monitors check one terminal flag and one terminal event per side, agreement of both sides, all threads finished, sockets closed, provider idle and the time bound.",
+        "Same trusted base as C05; D=1 quick, D=2 thorough; prompt virtual time.",
+        "3/C06",
+    ),
     "C28": (
         "exploration",
         "enum",
